@@ -7,6 +7,7 @@
 use vstd::prelude::*;
 use vstd::std_specs::hash::*;
 use vstd::std_specs::cmp::*;
+use vstd::std_specs::iter::IteratorSpec;
 use std::collections::hash_map::{self, HashMap};
 use std::hash::{Hash, Hasher};
 
@@ -48,6 +49,7 @@ pub mod trusted {
 broadcast use {trusted::axiom_object_uuid_key_model, trusted::axiom_service_uuid_key_model, vstd::std_specs::hash::group_hash_axioms};
 
 //@include _shared/std_get_mut_spec.rs
+//@include _shared/iter_step.rs
 
 //@item core/src/ids/object_id.rs struct ObjectId attr=derive(Clone,Copy)
 //@item core/src/ids/service_id.rs struct ServiceId attr=derive(Clone,Copy)
@@ -179,6 +181,42 @@ impl<Key> AnyObject<Key> where Key: Copy + Eq + Hash {
                 && r->Some_0.key == old(self).key && r->Some_0.kind == DiscovererEventKind::Created && r->Some_0.object == id,
     //@end
 
+    // a required service appears on some object. SOUNDNESS half only (see SpecificObjectWithServices::service_created below): the
+    // object is reported (one Created event, added to `created`) ONLY IF it now offers every required service.
+    //@fn aldrin/src/discoverer/any.rs AnyObject::service_created iter-any-all
+        requires
+            old(self).services@.contains_key(id.uuid) ==> !old(self).services@[id.uuid]@.contains_key(id.object_id.uuid)
+                && !old(self).created@.contains_key(id.object_id.uuid),
+        ensures
+            final(self).key == old(self).key,
+            !old(self).services@.contains_key(id.uuid) ==> r is None && final(self).services@ == old(self).services@
+                && final(self).created@ == old(self).created@,
+            old(self).services@.contains_key(id.uuid) ==> {
+                &&& final(self).services@.dom() == old(self).services@.dom()
+                &&& final(self).services@[id.uuid]@ == old(self).services@[id.uuid]@.insert(id.object_id.uuid, id.cookie)
+                &&& forall|su: ServiceUuid| #![trigger final(self).services@[su]] su != id.uuid && old(self).services@.contains_key(su) ==> final(self).services@[su] == old(self).services@[su]
+                &&& r is Some ==> (forall|su: ServiceUuid| #![trigger final(self).services@[su]] final(self).services@.contains_key(su)
+                        ==> final(self).services@[su]@.contains_key(id.object_id.uuid))
+                &&& r is Some ==> final(self).created@ == old(self).created@.insert(id.object_id.uuid, id.object_id.cookie)
+                        && r->Some_0.key == old(self).key && r->Some_0.kind == DiscovererEventKind::Created && r->Some_0.object == id.object_id
+                &&& r is None ==> final(self).created@ == old(self).created@
+            },
+    //@loop 0 it
+        invariant
+            forall|v: HashMap<ObjectUuid, ServiceCookie>| self.services@.values().contains(v) ==> #[trigger] it.seq().contains(&v),
+            __vp_all0 ==> forall|v: HashMap<ObjectUuid, ServiceCookie>| #![trigger self.services@.values().contains(v)]
+                self.services@.values().contains(v) ==> v@.contains_key(id.object_id.uuid) || in_rest(it.seq(), it.index(), &v),
+        ensures __vp_all0 ==> it.index() == it.seq().len(),
+    //@ghost loop-start 0
+        proof { lemma_in_rest_step(it.seq(), it.index()); assert(c == it.seq()[it.index()]); }
+    //@ghost before `let dup = self.created.insert(id.object_id.uuid, id.object_id.cookie);`
+        proof {
+            assert forall|su: ServiceUuid| self.services@.contains_key(su) implies #[trigger] self.services@[su]@.contains_key(id.object_id.uuid) by {
+                assert(self.services@.values().contains(self.services@[su]));
+            }
+        }
+    //@end
+
     //@fn aldrin/src/discoverer/any.rs AnyObject::service_destroyed
         requires
             old(self).services@.contains_key(id.uuid) ==> old(self).services@[id.uuid]@.contains_key(id.object_id.uuid)
@@ -207,6 +245,43 @@ impl<Key> AnyObject<Key> where Key: Copy + Eq + Hash {
 //@item aldrin/src/discoverer/specific_with_services.rs struct SpecificObjectWithServices
 
 impl<Key> SpecificObjectWithServices<Key> where Key: Copy + Eq + Hash {
+    // a required service of this entry's object appears. SOUNDNESS half only: the object is reported (one Created event, cookie
+    // recorded) ONLY IF every required service is now present. The converse (it IS reported as soon as all are present) is not
+    // decided: vstd's specification of `HashMap::values()` says that every value of the map is yielded, not that nothing else is,
+    // so a `false` from `.values().all(..)` cannot be traced back to a missing service.
+    //@fn aldrin/src/discoverer/specific_with_services.rs SpecificObjectWithServices::service_created iter-any-all
+        requires
+            (id.object_id.uuid == old(self).object && old(self).services@.contains_key(id.uuid))
+                ==> old(self).services@[id.uuid] is None,
+        ensures
+            final(self).key == old(self).key, final(self).object == old(self).object,
+            final(self).services@.dom() == old(self).services@.dom(),
+            !(id.object_id.uuid == old(self).object && old(self).services@.contains_key(id.uuid)) ==> r is None
+                && final(self).services@ == old(self).services@ && final(self).cookie == old(self).cookie,
+            (id.object_id.uuid == old(self).object && old(self).services@.contains_key(id.uuid)) ==> {
+                &&& final(self).services@[id.uuid] == Some(id.cookie)
+                &&& forall|su: ServiceUuid| #![trigger final(self).services@[su]] su != id.uuid && old(self).services@.contains_key(su) ==> final(self).services@[su] == old(self).services@[su]
+                &&& r is Some ==> (forall|su: ServiceUuid| #![trigger final(self).services@[su]] final(self).services@.contains_key(su) ==> final(self).services@[su] is Some)
+                &&& r is Some ==> final(self).cookie == Some(id.object_id.cookie) && r->Some_0.key == old(self).key
+                        && r->Some_0.kind == DiscovererEventKind::Created && r->Some_0.object == id.object_id
+                &&& r is None ==> final(self).cookie == old(self).cookie
+            },
+    //@loop 0 it
+        invariant
+            forall|v: Option<ServiceCookie>| self.services@.values().contains(v) ==> #[trigger] it.seq().contains(&v),
+            __vp_all0 ==> forall|v: Option<ServiceCookie>| #![trigger self.services@.values().contains(v)]
+                self.services@.values().contains(v) ==> v is Some || in_rest(it.seq(), it.index(), &v),
+        ensures __vp_all0 ==> it.index() == it.seq().len(),
+    //@ghost loop-start 0
+        proof { lemma_in_rest_step(it.seq(), it.index()); assert(__vp_x == it.seq()[it.index()]); }
+    //@ghost after `self.cookie = Some(id.object_id.cookie);`
+        proof {
+            assert forall|su: ServiceUuid| self.services@.contains_key(su) implies #[trigger] self.services@[su] is Some by {
+                assert(self.services@.values().contains(self.services@[su]));
+            }
+        }
+    //@end
+
     // losing one of the required services un-reports the object (one Destroyed event if it was reported); a service the
     // entry does not require, or one of another object, changes nothing
     //@fn aldrin/src/discoverer/specific_with_services.rs SpecificObjectWithServices::service_destroyed
